@@ -58,6 +58,7 @@ def run(tier, seed):
     nest = {
         "p": inner,
         "outer": "{% assign x = 'OX' %}{% render 'p' %}",
+        "pl": "{% for j in (1..1) %}[{{ forloop.parentloop.index }}]{% endfor %}",
         "outer_arg": "{% render 'p', x: 'ARG' %}",
         "base": "{% assign secret = 'BASE' %}{% block b %}{% render 'p' %}{% endblock %}",
         "child": "{% extends 'base' %}{% block b %}{% assign x = 'CX' %}{% render 'p' %}{{ block.super }}{% endblock %}",
@@ -70,6 +71,9 @@ def run(tier, seed):
         ("render-in-render-for", "{% assign xs = 'q,r' | split: ',' %}{% render 'outer' for xs as a %}", "[G][G]"),
         ("render-arg-in-render", "{% render 'outer_arg', a: 'OUTERARG' %}", "[ARGG]"),
         ("render-in-macro", "{% macro m a %}{% assign x = 'MX' %}{% render 'p' %}{% endmacro %}{% call m 'MACROARG' %}", "[G]"),
+        ("macro-missing-argument", "{% macro m a %}[{{ a }}{{ g }}]{% endmacro %}{% assign a = 'CALLER' %}{% for a in (1..1) %}{% call m %}{% endfor %}", "[G]"),
+        ("parentloop-in-render", "{% for i in (1..2) %}{% render 'pl' %}{% endfor %}", "[][]"),
+        ("parentloop-in-call", "{% macro m %}{% for j in (1..1) %}[{{ forloop.parentloop.index }}]{% endfor %}{% endmacro %}{% for i in (1..2) %}{% call m %}{% endfor %}", "[][]"),
         ("call-in-block", None, "[G]"),
         ("render-in-block", None, "[G][G]"),
         ("render-in-base-block", None, "[G]"),
